@@ -205,6 +205,11 @@ pub fn run_case(ctx: &mut Ctx, rng: &mut Rng, c: &Case, label: &str) {
         b.head_len = head.len();
         head.extend_from_slice(&body);
         b.wire = head;
+        if c.framing_adjusted && c.truncate_to.is_some() && c.flip.is_none() {
+            // the frame ends where the stream was cut; what follows on the connection is the REST of
+            // the compressed stream: it lies beyond the frame and must not reach the decoder
+            b.wire.extend_from_slice(&c.enc.stream[stream.len().min(c.enc.stream.len())..]);
+        }
     }
     if c.framing == Framing::Chunked && !c.framing_adjusted && c.truncate_to.is_some() {
         // leave the chunked framing short as well: drop the terminator
